@@ -25,7 +25,8 @@ GOLDEN = os.path.join(os.path.dirname(os.path.dirname(os.path.dirname(os.path.ab
 
 def shards(tier, seed):
     n = len(TS.type_space(tier))
-    return [("type", i) for i in range(n)] + [("golden",), ("structtag",), ("fixstr",)] + [("patterns", i) for i in range(8)]
+    return [("type", i) for i in range(n)] + [("golden",), ("structtag",), ("fixstr",)] + [("patterns", i) for i in range(8)] \
+        + [("type", i, "python-O") for i in range(n)] + [("structtag", "python-O"), ("fixstr", "python-O")] + [("type", i, "debuglog") for i in range(0, n, 7)]
 
 
 def describe(tier, seed):
